@@ -237,3 +237,52 @@ func H_C07_restore() {
 	vAssert(vLiveBlocks() == 0, "an instance populated by LoadFromDisk returns every block by Close")
 	vReach("c07-restore-done")
 }
+
+// H_C07_nodelist: nodes returned by Put2 are chained in a NodeList (the package's own helper; it uses the nodes'
+// link field, which the garbage and free lists use too). One of them is taken out of the list (its own link keeps
+// pointing at its former successor) and deleted through Writer.DeleteNode, in the epoch it was born in or in a
+// later one; then snapshots churn, the workers drain and everything is closed. Every block must come back exactly
+// once: the reclaimer must not follow a stale link into nodes that are still live.
+func H_C07_nodelist() {
+	cfg, c := vConfig()
+	db := NewWithConfig(cfg)
+	ws := vWriters(db, 1)
+	w := ws[0]
+	n := vBound("items")
+	l := NewNodeList(nil)
+	var nodes [6]*skiplist.Node
+	for i := 0; i < n; i++ {
+		k := byte(10 + 7*i)
+		nodes[i] = w.Put2(c.item(k, byte(i+1)))
+		vAssert(nodes[i] != nil, "Put of a fresh key succeeds")
+		l.Add(nodes[i])
+	}
+	vi := vRange("victim", 0, 0, n-1)
+	vk := byte(10 + 7*vi)
+	victim := l.Remove(c.item(vk, 0))
+	vAssert(victim == nodes[vi], "NodeList.Remove returns the node with that key")
+	var s1 *Snapshot
+	if vChoice("laterepoch", 0, 2) == 1 {
+		s1, _ = db.NewSnapshot() // the delete below becomes a cross-epoch delete
+	}
+	vAssert(w.DeleteNode(victim), "DeleteNode of a live node succeeds")
+	s2, _ := db.NewSnapshot()
+	vQuiesce()
+	it := db.NewIterator(s2)
+	cnt := 0
+	for it.SeekFirst(); it.Valid(); it.Next() {
+		_, _, ok := c.decode(it.Get())
+		vAssert(ok, "remaining items are intact")
+		cnt++
+	}
+	it.Close()
+	vAssert(cnt == n-1, "every other item is still there")
+	if s1 != nil {
+		s1.Close()
+	}
+	s2.Close()
+	vQuiesce()
+	db.Close()
+	vAssert(vLiveBlocks() == 0, "every allocated block was returned exactly once")
+	vReach("c07-nodelist-done")
+}
